@@ -563,8 +563,15 @@ def run_iter(res, ast):
         for m in walk_t(body, "Match"):
             for a in m["arms"]:
                 p = a["pat"]
-                if p["t"] == "PTupleStruct" and p["path"]["name"].endswith("SmallVecIntoIter::Small"):
+                if p["t"] == "PTupleStruct" and p["path"]["name"].split("::")[-1] == "Small" and "IntoIter" in (f["container"] + p["path"]["name"]):
                     arms.append(a)
+        # the same destructuring written as `if let Small(..) = self { .. }` / `while let`
+        for i_ in walk_t(body, "If", "While"):
+            c_ = strip_paren(i_["cond"])
+            if c_["t"] == "Let" and c_["pat"]["t"] == "PTupleStruct" and c_["pat"]["path"]["name"].split("::")[-1] == "Small" and \
+                    "IntoIter" in (f["container"] + c_["pat"]["path"]["name"]):
+                blk = i_["then"] if i_["t"] == "If" else i_["body"]
+                arms.append({"pat": c_["pat"], "body": {"t": "BlockExpr", "block": blk, "label": None, "sp": blk["sp"]}, "sp": i_["sp"], "guard": None})
         for a in arms:
             seen += 1
             names = [e.get("name") if e["t"] == "PIdent" else ("_" if e["t"] == "PWild" else None) for e in a["pat"]["elems"]]
